@@ -2601,16 +2601,22 @@ class LinearOperator(object):
         """
         device, dtype = _to_helper(*args, **kwargs)
 
+        def _to_helper_arg(arg):
+            # integer / boolean tensors (indices, masks, permutations) only change device, never dtype
+            if torch.is_tensor(arg) and not arg.dtype.is_floating_point:
+                return arg.to(device=device)
+            return arg.to(dtype=dtype, device=device)
+
         new_args = []
         new_kwargs = {}
         for arg in self._args:
             if hasattr(arg, "to"):
-                new_args.append(arg.to(dtype=dtype, device=device))
+                new_args.append(_to_helper_arg(arg))
             else:
                 new_args.append(arg)
         for name, val in self._kwargs.items():
             if hasattr(val, "to"):
-                new_kwargs[name] = val.to(dtype=dtype, device=device)
+                new_kwargs[name] = _to_helper_arg(val)
             else:
                 new_kwargs[name] = val
         return self.__class__(*new_args, **new_kwargs)
